@@ -2,6 +2,8 @@ import FormulaeModel.Proofs.ProductOrder
 import FormulaeModel.Proofs.Indicator
 import FormulaeModel.Spec.C04
 import FormulaeModel.Properties.Bridge
+import FormulaeModel.Proofs.ShapeStack
+import FormulaeModel.Proofs.ShapeExamples
 /-
 C04 — property theorems about the evaluation model (Model/Design.lean, Model/Matrices.lean).
 -/
@@ -82,5 +84,128 @@ example : List.zip (reduceLabels [["f[b]", "f[c]"], ["x"], ["g[u]", "g[v]", "g[w
     = [("f[b]:x:g[u]", some 0), ("f[b]:x:g[v]", some 0), ("f[b]:x:g[w]", some 0),
        ("f[c]:x:g[u]", some (5 / 2)), ("f[c]:x:g[v]", some 0), ("f[c]:x:g[w]", some 0)] := by
   decide +kernel
+
+
+/-! ### design-level: labels and columns are equal in number, for the model's own top-level functions
+
+Hypotheses (explicit, decidable): the data frame is rectangular (`Frame.wellFormed`) and every
+vector-like value bound in the caller's namespace has one entry per row (`Env.namesSized`; implied
+by `Env.namesScalar`).  No bound on the frame, the expression or the number of components.
+
+The theorems are named `_partial` because the guard on the namespace excludes inputs the code
+accepts (a vector of the wrong length bound in the caller's namespace, see
+`C17_trainComp_rows_counterexample`).  The guard is an artefact of the proof (row counts and column
+counts are established together, and the row counts need it); no counterexample to the unguarded
+column statements is known, and none is expected: no width in the model depends on a length. -/
+
+/-- One component (`Variable` / `Call`, any expression, any coding flag): whenever the component has
+labels, every row of its matrix has exactly one entry per label. -/
+theorem C04_trainComp_labels_partial (env : Env) (name : String) (e : Expr) (forced isResponse full : Bool)
+    (out : CompOut) (ls : List String) (hwf : env.frame.wellFormed = true)
+    (hn : env.namesSized env.frame.nrows = true)
+    (h : trainComp env name e forced isResponse full = .ok out) (hl : out.labels = some ls) :
+    ∀ r ∈ out.value, r.length = ls.length :=
+  ((trainComp_shape env hwf hn name e forced isResponse full out h).cols ls hl).1
+
+/-- One term (main effect or interaction of any arity): every row of `data` has exactly
+`labels.length` entries. -/
+theorem C04_trainTerm_labels_partial (env : Env) (table : List (String × Expr)) (spec : TermSpec)
+    (forced isResponse : Bool) (out : TermOut) (ls : List String)
+    (hwf : env.frame.wellFormed = true) (hn : env.namesSized env.frame.nrows = true)
+    (h : trainTerm env table spec forced isResponse = .ok out) (hl : out.labels = some ls) :
+    ∀ r ∈ out.data, r.length = ls.length :=
+  ((trainTerm_shape env hwf hn table spec forced isResponse out h).cols ls hl).1
+
+/-- One group-specific term: every row of the Khatri-Rao block has exactly `labels.length`
+entries. -/
+theorem C04_trainGroup_labels_partial (env : Env) (table : List (String × Expr)) (spec : GroupSpec)
+    (out : GroupOut) (ls : List String) (hwf : env.frame.wellFormed = true)
+    (hn : env.namesSized env.frame.nrows = true)
+    (h : trainGroup env table spec = .ok out) (hl : out.labels = some ls) :
+    ∀ r ∈ out.data, r.length = ls.length :=
+  ((trainGroup_shape env hwf hn table spec out h).cols ls hl).1
+
+open FormulaeModel.Pipeline in
+/-- The whole of `design_matrices` (every formula, frame, namespace, `na_action`): in the response,
+in every common term and in every group-specific term the rows have one entry per label; and in
+the stacked common and group matrices (labels = the concatenation of the terms' labels) every row
+has exactly as many entries as there are labels. -/
+theorem C04_design_labels_partial (table : Parser.Table) (ops : Resolver.OpTable) (actions : List String)
+    (formula : String) (env : Env) (naAction : String) (built : Built)
+    (hwf : env.frame.wellFormed = true) (hn : env.namesScalar = true)
+    (h : designMatrices table ops actions formula env naAction = .ok built) :
+    (∀ out, built.response = some out → ∀ ls, out.labels = some ls → ∀ r ∈ out.data, r.length = ls.length) ∧
+    (∀ p ∈ built.common, ∀ out, p.2 = some out → ∀ ls, out.labels = some ls →
+      ∀ r ∈ out.data, r.length = ls.length) ∧
+    (∀ g ∈ built.group, ∀ ls, g.labels = some ls → ∀ r ∈ g.data, r.length = ls.length) ∧
+    (∀ ls, (Driver.C04.commonStack built.frame.nrows built.trained).labels = some ls →
+      ∀ r ∈ (Driver.C04.commonStack built.frame.nrows built.trained).matrix, r.length = ls.length) ∧
+    (∀ ls, (Driver.C04.groupStack built.frame.nrows built.trained).labels = some ls →
+      ∀ r ∈ (Driver.C04.groupStack built.frame.nrows built.trained).matrix, r.length = ls.length) := by
+  have hs := designMatrices_shape table ops actions formula env naAction built hwf hn h
+  refine ⟨?_, ?_, ?_, ?_, ?_⟩
+  · intro out hout ls hls
+    obtain ⟨k, hk⟩ := hs.response out hout
+    exact (hk.cols ls hls).1
+  · intro p hp out hout ls hls
+    obtain ⟨k, _, ho⟩ := (hs.common p hp).2 out hout
+    exact (ho.cols ls hls).1
+  · intro g hg ls hls
+    obtain ⟨ne, hgs⟩ := hs.group g hg
+    exact (hgs.cols ls hls).1
+  · intro ls hls
+    rw [Built.commonStack_eq] at hls ⊢
+    exact stack_labels_width _ _ (fun p hp => ((built.commonParts_shape hs).2 p hp).2.2) ls hls
+  · intro ls hls
+    rw [Built.groupStack_eq] at hls ⊢
+    apply stack_labels_width _ _ _ ls hls
+    intro q hq l hl
+    simp only [Built.groupParts, List.mem_map] at hq
+    obtain ⟨g, hg, rfl⟩ := hq
+    obtain ⟨ne, hgs⟩ := hs.group g hg
+    exact (hgs.cols l hl).1
+
+/-! ### non-vacuity of the design-level theorems (inputs: Proofs/ShapeExamples.lean) -/
+open FormulaeModel.ShapeEx
+
+example : exEnv.frame.wellFormed = true ∧ exEnv.namesSized exEnv.frame.nrows = true ∧
+    exEnvNA.frame.wellFormed = true ∧ exEnvNA.namesScalar = true := by decide
+
+-- C04_trainComp_labels_partial: `C(f)`, reduced coding: 2 labels, 2 columns in each of the 4 rows
+example : (match trainComp exEnv "C(f)" (exCall1 "C" (exVar "f")) false false false with
+    | .ok o => o.labels == some ["C(f)[b]", "C(f)[c]"] && o.value.map List.length == [2, 2, 2, 2]
+    | .error _ => false) = true := by decide +kernel
+example (out : CompOut) (ls : List String)
+    (h : trainComp exEnv "C(f)" (exCall1 "C" (exVar "f")) false false false = .ok out)
+    (hl : out.labels = some ls) : ∀ r ∈ out.value, r.length = ls.length :=
+  C04_trainComp_labels_partial exEnv _ _ _ _ _ out ls (by decide) (by decide) h hl
+
+-- C04_trainTerm_labels_partial: the interaction `C(f):x`
+example : (match trainTerm exEnv exTable exTermSpec false false with
+    | .ok o => o.labels == some ["C(f)[b]:x", "C(f)[c]:x"] && o.data.map List.length == [2, 2, 2, 2]
+    | .error _ => false) = true := by decide +kernel
+example (out : TermOut) (ls : List String) (h : trainTerm exEnv exTable exTermSpec false false = .ok out)
+    (hl : out.labels = some ls) : ∀ r ∈ out.data, r.length = ls.length :=
+  C04_trainTerm_labels_partial exEnv _ _ _ _ out ls (by decide) (by decide) h hl
+
+-- C04_trainGroup_labels_partial: `(x | g)`
+example : (match trainGroup exEnv exTable exGroupSpec with
+    | .ok o => o.labels == some ["x|g[u]", "x|g[v]"] && o.data.map List.length == [2, 2, 2, 2]
+    | .error _ => false) = true := by decide +kernel
+example (out : GroupOut) (ls : List String) (h : trainGroup exEnv exTable exGroupSpec = .ok out)
+    (hl : out.labels = some ls) : ∀ r ∈ out.data, r.length = ls.length :=
+  C04_trainGroup_labels_partial exEnv _ _ out ls (by decide) (by decide) h hl
+
+-- C04_design_labels_partial: the whole pipeline `y ~ f + x + (x|g)` with `na_action = "drop"` on the frame
+-- with a missing cell: the stacked matrices carry labels
+example : (match exDesign exEnvNA with
+    | .ok b => (Driver.C04.commonStack b.frame.nrows b.trained).labels == some ["Intercept", "f[c]", "x"]
+        && (Driver.C04.groupStack b.frame.nrows b.trained).labels
+            == some ["1|g[u]", "1|g[v]", "x|g[u]", "x|g[v]"]
+    | .error _ => false) = true := by decide +kernel
+example (b : Pipeline.Built) (h : exDesign exEnvNA = .ok b) (ls : List String)
+    (hl : (Driver.C04.commonStack b.frame.nrows b.trained).labels = some ls) :
+    ∀ r ∈ (Driver.C04.commonStack b.frame.nrows b.trained).matrix, r.length = ls.length :=
+  (C04_design_labels_partial _ _ _ _ exEnvNA _ b (by decide) (by decide) h).2.2.2.1 ls hl
 
 end FormulaeModel.C04
